@@ -411,6 +411,7 @@ func main() {
 		for _, b := range os.Args[2:] {
 			build(b)
 		}
+		removeBins() // setup only warms the build cache
 	case "replay":
 		if len(os.Args) < 3 {
 			fatal2("usage: dsim replay <file>")
